@@ -152,7 +152,7 @@ def gen_cases(tier, seed, prop):
             shape = shapes[(k * 3 + j) % len(shapes)]
             cases.append({"kind": "herd", "iso": iso, "strategy": strat, "shape": shape,
                           "N": rnd.choice([120, 120, 72, 48, 12, 24]), "gen_seed": seed * 7919 + k * 31 + j,
-                          "with_meat_dict": bool((k + j) % 2), "id": "%s/%s/%s#%d" % (iso, strat, shape, j)})
+                          "with_meat_dict": bool((k + j) % 2), "wrapper": (k + j) % 4 == 1, "id": "%s/%s/%s#%d" % (iso, strat, shape, j)})
         k += 1
     return cases
 
@@ -179,5 +179,31 @@ def run_herd(case):
         calls, hours = _state["feed_calls"], _state["hours"]
     finally:
         _state["feed_calls"], _state["hours"] = None, None
-    return {"animals": animals, "feed_used": np.asarray(fu.kcals, float), "grass_used": np.asarray(gu.kcals, float),
+    wrapper_diff = None
+    if case.get("wrapper"):
+        # the same supplies through CalculateFeedAndMeat, the boundary the optimiser and analysts read the herds at: it
+        # drops the first entry (the starting values) of every monthly list, so every list there is the direct run's
+        # list without its first entry - same length for all, month m at the same index in all of them
+        w = ap.CalculateFeedAndMeat(case["iso"], make_food(fa), make_food(ga), case["strategy"], kd)
+        wrapper_diff = []
+        direct = {a.animal_type: a for a in animals}
+        for wa in w.all_animals:
+            da = direct.get(wa.animal_type)
+            if da is None:
+                wrapper_diff.append("%s only in the wrapper's result" % wa.animal_type)
+                continue
+            for name, val in vars(da).items():
+                if isinstance(val, list) and val and all(isinstance(x, (int, float, np.floating, np.integer)) for x in val):
+                    got = getattr(wa, name, None)
+                    want = val[1:]
+                    if not isinstance(got, list) or len(got) != len(want) or any(not (x == y or (x != x and y != y)) for x, y in zip(got, want)):
+                        first = next((i for i, (x, y) in enumerate(zip(got or [], want)) if not (x == y or (x != x and y != y))), None)
+                        wrapper_diff.append("%s.%s: %d entries (direct run without its first entry: %d), first differing month index %s" % (
+                            wa.animal_type, name, len(got) if isinstance(got, list) else -1, len(want), first))
+        if len(w.all_animals) != len(animals):
+            wrapper_diff.append("%d herds in the wrapper's result, %d in the direct run" % (len(w.all_animals), len(animals)))
+        for label, a, b in (("feed_used", w.feed_used, fu), ("grass_used", w.grass_used, gu)):
+            if not np.array_equal(np.asarray(a.kcals, float), np.asarray(b.kcals, float)):
+                wrapper_diff.append("%s differs between the wrapper and the direct run" % label)
+    return {"wrapper_diff": wrapper_diff, "animals": animals, "feed_used": np.asarray(fu.kcals, float), "grass_used": np.asarray(gu.kcals, float),
             "feed_in": fa, "grass_in": ga, "feed_calls": calls, "hours": hours, "N": N, "kd": kd}
